@@ -289,11 +289,135 @@ def run(tier):
                     instance='%s: len %s = 1 + %s, CID 0x%02x on both sides' % (creator, l1, l2, cid1 or 0))
     if n_len < 12:
         raise CheckError('floor: creators checked for framing %d < 12' % n_len)
-    res.coverage.update({'pairs': len(PAIRS), 'not_judged': NOT_JUDGED, 'configs': [c.info]})
+    n_arms = stream_framing(c, res)
+    res.coverage.update({'pairs': len(PAIRS), 'not_judged': NOT_JUDGED, 'configs': [c.info], 'parse_one_arms': n_arms})
     res.explanation = __doc__
     res.assumptions = ['the command table (byte, bit range per field) is frozen from LoRaWAN 1.0.x in lrs/props/c19.py',
                        'wrapper arguments (ChannelMask, Frequency, Redundancy, DLSettings, DataRateRange) are compared as the bytes they carry']
     return res
+
+
+def stream_framing(c, res):
+    """a stream of commands parses back to the same sequence only if each step of the generated framing functions
+    (MacCommandSet::parse_one, one arm per command of the six command sets) wraps exactly the bytes it reports as
+    consumed: every Ok((Variant(Payload::new_from_raw(S)), n)) has S = data[1 .. n]"""
+    from ..flow import ProgFlow
+    from ..rules import term_of_operand, term_str, linear
+    from ..layout import peel, index_call
+    fns = sorted(p for p in c.prog.by_short if p.endswith('MacCommandSet<\'a>>::parse_one'))
+    if len(fns) != 6:
+        raise CheckError('anchor: generated parse_one functions %d != 6' % len(fns))
+    n_arms = 0
+
+    def span(t):
+        # (start, end) linear forms of a (nested) range-indexed view of the input slice `data` (parameter 1); end None = to the end
+        t = peel(t)
+        if t == ('param', 1):
+            return ({}, 0), None
+        ic = index_call(t)
+        if ic is None:
+            return None
+        base, (a, b, kind) = ic
+        sp = span(base)
+        if sp is None:
+            return None
+        (s0, e0) = sp
+
+        def add(x, y):
+            d = dict(x[0])
+            for k, v in y[0].items():
+                d[k] = d.get(k, 0) + v
+                if d[k] == 0:
+                    del d[k]
+            return d, x[1] + y[1]
+        st_ = add(s0, linear(a))
+        en_ = add(s0, linear(b)) if b is not None else e0
+        return st_, en_
+    for fn in fns:
+        bf = c.bf(fn)
+        short = fn.split(' as ')[0].lstrip('<').split('::')[-1].replace("<'a>", '')
+        arms = 0
+        for b in bf.body.blocks:
+            if b.cleanup or b.idx not in bf.cfg.reach:
+                continue
+            for si, s_ in enumerate(b.stmts):
+                if not (s_.k == 'assign' and s_.rv.k == 'agg' and s_.rv.d.get('variant') == 'Ok'):
+                    continue
+                t = term_of_operand(bf, s_.rv.ops[0])
+                if not (t[0] == 'tuple' and len(t[1]) == 2 and t[1][0][0] == 'agg'):
+                    continue
+                arms += 1
+                var = t[1][0][1].split('::')[-1]
+                fields = t[1][0][2]
+                consumed = linear(t[1][1])
+                ok, why = True, ''
+                if fields:
+                    pl = peel(fields[0][1])
+                    if not (pl[0] == 'call' and pl[1].endswith('::new_from_raw') and len(pl[2]) == 1):
+                        ok, why = False, 'payload is %s' % term_str(pl)[:80]
+                    else:
+                        sp = span(pl[2][0])
+                        if sp is None:
+                            ok, why = False, 'payload bytes are not a range of the input: %s' % term_str(pl[2][0])[:100]
+                        else:
+                            (st_, en_) = sp
+                            if st_ != ({}, 1):
+                                ok, why = False, 'payload does not start right after the CID byte'
+                            elif en_ is None:
+                                # wrapping all remaining bytes is the same as data[1..n] only when n - 1 is provably the number of remaining bytes:
+                                # len() of this payload type is max(_, self.0.len()) (>= remaining) and the arm is behind `!(remaining < len)`
+                                if not _len_is_whole_rest(c, bf, b.idx, pl, t[1][1]):
+                                    ok, why = False, 'payload wraps every remaining byte of the stream, but only %s byte(s) are reported as consumed' % term_str(t[1][1])[:60]
+                            elif en_ != consumed:
+                                ok, why = False, 'payload ends at %s, consumed count is %s' % (en_, consumed)
+                else:
+                    ok = consumed == ({}, 1)
+                    why = 'a command without payload consumes %s bytes' % (consumed,)
+                res.require(ok, 'C19:%s::parse_one:%s:frame' % (short, var), '%s::parse_one, command %s: %s' % (short, var, why), '%s bb%d' % (fn, b.idx),
+                            'FRAME(payload = data[1..consumed])', instance='%s::%s: payload is exactly data[1..n], n = bytes consumed' % (short, var))
+        if arms < 2:
+            raise CheckError('floor: %s has %d Ok arms' % (fn, arms))
+        n_arms += arms
+    if n_arms < 44:
+        raise CheckError('floor: parse_one arms %d < 44 (counted on the pinned tree)' % n_arms)
+    return n_arms
+
+
+def _len_is_whole_rest(c, bf, bb, payload_call, consumed_term):
+    from ..rules import path_conditions, cond_false, linear, callee_name, term_of_operand
+    from ..layout import peel
+    lin, k = linear(consumed_term)
+    if k != 1 or len(lin) != 1 or list(lin.values()) != [1]:
+        return False
+    lt = peel(list(lin)[0])
+    if not (lt[0] == 'call' and lt[1].endswith('::len') and len(lt[2]) == 1 and peel(lt[2][0]) == payload_call):
+        return False
+    bl = c.prog.by_short.get(lt[1]) or []
+    if len(bl) != 1:
+        return False
+    lbf = c.bf(lt[1])
+    whole = False
+    for cb, ct in lbf.calls():
+        if ct.dest.is_local() and ct.dest.local == 0:
+            args = [peel(term_of_operand(lbf, a)) for a in ct.args]
+            def is_self0(x):
+                x = peel(x)
+                return x[0] == 'field' and x[2] == '0' and peel(x[1]) == ('param', 1)
+
+            def is_self_len(a):
+                return a[0] == 'call' and a[1].endswith('::len') and len(a[2]) == 1 and is_self0(a[2][0])
+            if callee_name(ct).endswith('cmp::max') and any(is_self_len(a) for a in args):
+                whole = True
+            if callee_name(ct).endswith('::len') and len(args) == 1 and is_self0(args[0]):
+                whole = True
+    if not whole:
+        return False
+    rest = peel(payload_call[2][0])
+    for x in path_conditions(bf, bb):
+        t = x[0]
+        if t[0] == 'Lt' and cond_false(x) and peel(t[2]) == lt and peel(t[1])[0] == 'call' and peel(t[1])[1].endswith('::len') and peel(peel(t[1])[2][0]) == rest:
+            return True
+    return False
 
 
 def _known_zero(st, e):
